@@ -82,3 +82,23 @@ add("C16", "exploration",
     "spacing, seed reproducibility incl. single-bit seed differences, sqrt(c) scaling. Held-on-K-executions.",
     "population variance of the nfft samples; scalar-layout spectra without NaN; unidirectional 2D spectra",
     "runtime conservation monitor (time-domain variance vs spectral sum) + metamorphic seed/scale pairs", "4/C16")
+add("C18", "exploration",
+    "Bounded-exhaustive request histories (every sequence up to length 4 quick / 5 thorough over 9 operation symbols x "
+    "3 size limits x sequential/parallel) plus long random histories with injected download delays are executed on "
+    "the real FileCache; after every operation an executable reference model judges returned bytes and names, "
+    "hit/miss contact log, size bound and enlargement rule, the LRU eviction relation, entry count vs directory, "
+    "foreign files, and an audit-hook trace of every file-system write in the directory. The bounded part is "
+    "enumerated completely; nothing is claimed beyond those bounds.",
+    "reference model in vmon/cachelab.py is an oracle for executions, not explored in place of the code; harness ages "
+    "files between operations so timestamp granularity never decides recency; eviction judged as a relation (ties)",
+    "history + executable reference model checker, audit-hook trace monitor, bounded-exhaustive workload", "4/C18")
+add("C19", "fault_enumeration",
+    "Every fault kind (not-found, exception before/after partial write, post-processing exception, validation "
+    "rejection with and without failing re-fetch) at every download position of every request of every history up to "
+    "length 2 (quick) / 3 (thorough), tolerant and strict, sequential and parallel (delays make the failing download "
+    "finish first or last), each followed by same-session retry and by reopening the directory; every executed line "
+    "of the cache as an exception-style crash point; os._exit crashes in a subprocess. Enumerated completely within "
+    "those bounds.",
+    "a crash is modelled as abandoning the FileCache object (exception) or killing the process (os._exit) followed by "
+    "a new FileCache on the directory; straggling pool workers are joined before the directory is examined",
+    "fault and crash-point enumeration (instrumented resource + sys.monitoring failpoints) with reopen oracle", "4/C19")
